@@ -15,14 +15,14 @@ theorem tokens_shift' (E : Env) (n : Bool) (pre X : List Rune) (hc : Clean (scan
   unfold tokenizeRunes scanRunes scanFrom
   rw [List.foldl_append]
 
-theorem clean_after_plain_nl' (E : Env) (s : State) (hd : s.deferredEOL = false) (_hw : s.deferredWord = false)
+theorem clean_after_plain_nl' (E : Env) (s : State) (_hd : s.deferredEOL = false) (_hw : s.deferredLines = 0)
     (hh : s.obuf.getLast? ≠ some hyphen) : Clean (step E true s nl) := by
   rw [step_eq]
   simp only [if_true]
   unfold nlStep Clean
   simp only [hh, and_false, if_false]
-  -- the plain-newline branch now clears `deferredWord` itself, so `_hw` is no longer needed
-  refine ⟨?_, trivial, hd, trivial⟩
+  -- the plain-newline branch clears `deferredEOL` and `deferredLines` itself, so `_hd`/`_hw` are not needed
+  refine ⟨?_, trivial, trivial, trivial⟩
   by_cases h2 : s.obuf = []
   · simp [h2]
   · simp [h2]
